@@ -13,6 +13,7 @@ static const struct fam FT[] = {{"AC", 3, 5, 0, 4}, {"ACG", 3, 3, 0, 4}, {"AC", 
 static const int DT[] = {KALIGN_TYPE_UNDEFINED, KALIGN_TYPE_DNA, KALIGN_TYPE_DNA_INTERNAL, KALIGN_TYPE_RNA};
 static const int PT[] = {KALIGN_TYPE_UNDEFINED, KALIGN_TYPE_PROTEIN, KALIGN_TYPE_PROTEIN_DIVERGENT};
 #define NMANY 48        /* 20..99-sequence sets built from few distinct sequences */
+#define NFRAG 24        /* a very long duplicated sequence plus short, almost-contained fragments (one edit each) */
 #define NLONG 96         /* long duplicated sequence plus shorter relatives at substring edit distance exactly 256 / 512 */
 
 static const struct fam* fams(int tier, int* n)
@@ -34,7 +35,7 @@ uint64_t vh_total(int tier)
         for(i = 0; i < n; i++){
                 t += fsize(&F[i]);
         }
-        return t + NMANY + NLONG;
+        return t + NMANY + NLONG + NFRAG;
 }
 
 struct dcase { struct kx_set in; int type; int protein; int many; };
@@ -61,6 +62,51 @@ static void decode(uint64_t id, int tier, struct dcase* c)
                         return;
                 }
                 id -= sz;
+        }
+        if(id >= NMANY + NLONG){
+                /* A (2600..4200 residues) twice + two ~100-residue fragments of it, each with one inserted residue at a different
+                   side of a low-complexity stretch: neither is contained in A, both are far closer to it in edits than in length */
+                int k = (int)(id - NMANY - NLONG);
+                int L = 2600 + 400 * (k % 5), protein = (k / 5) & 1, layout = k / 10;
+                uint64_t st = 999 + (uint64_t)k + (uint64_t)vh_seed;
+                static char A[4400], X[160], Y[160];
+                const char* alpha = protein ? "LKWAVDEGST" : "ACGT";
+                int at = 700 + 37 * k, o;
+                c->many = 2000 + k;
+                c->protein = protein;
+                c->type = KALIGN_TYPE_UNDEFINED;
+                sh_random_seq(&st, alpha, L, A);
+                /* a low-complexity stretch inside the region the fragments come from */
+                memcpy(A + at + 48, protein ? "LKKKKM" : "ACCCCG", 6);
+                memcpy(X, A + at, 100);
+                X[100] = 0;
+                memcpy(Y, A + at, 100);
+                Y[100] = 0;
+                /* insert one residue before / after the stretch */
+                o = 48;
+                memmove(X + o + 1, X + o, strlen(X + o) + 1);
+                X[o] = protein ? 'R' : 'T';
+                o = 54;
+                memmove(Y + o + 1, Y + o, strlen(Y + o) + 1);
+                Y[o] = protein ? 'R' : 'T';
+                if(layout == 0){
+                        kx_set_add(&c->in, A, "dupA_1");
+                        kx_set_add(&c->in, A, "dupA_2");
+                        kx_set_add(&c->in, X, "fragX");
+                        kx_set_add(&c->in, Y, "fragY");
+                }else if(layout == 1){
+                        kx_set_add(&c->in, X, "fragX");
+                        kx_set_add(&c->in, A, "dupA_1");
+                        kx_set_add(&c->in, Y, "fragY");
+                        kx_set_add(&c->in, A, "dupA_2");
+                }else{
+                        kx_set_add(&c->in, A, "dupA_1");
+                        kx_set_add(&c->in, X, "fragX");
+                        kx_set_add(&c->in, A, "dupA_2");
+                        kx_set_add(&c->in, Y, "fragY");
+                        kx_set_add(&c->in, A, "dupA_3");
+                }
+                return;
         }
         if(id >= NMANY){
                 /* long sets: A twice (at varying positions) + two shorter relatives whose substring edit distance to A is exactly
